@@ -233,6 +233,14 @@ add("C19", "fixed", "global-not-reported:in-partial",
      c19("{% render 'p' with g as b %}{% render 'p' %}", {"p": "{{ b.x }}"}, {"g": {"x": 1}, "b": {"x": "GB"}}),
      c19("{% tablerow b in xs %}{% include 'p' for xs %}{% endtablerow %}{% include 'p' with g2 %}", {"p": "{{ b.x[b] }}"}, {"xs": [1], "b": {"x": {}}, "g2": 1})], "5394e41")
 
+# ----------------------------------------------------------------------------- C11 fixed
+add("C11", "fixed", "rewrite-differs:inline-comment-in-liquid-tag",
+    "inside {% liquid %} the line-comment marker is the comment start string without '{'; the line pattern tried \\w+ before the marker, so with comment_start_string 'X#' the comment line "
+    "'X# note' was lexed as the unknown tag 'X' and the rewritten template failed to parse",
+    [{"kind": "rewrite", "nodes": [["liquid", [["inline", "end"]]]], "print_seed": 1, "wc": 0.0, "tight": 0.0, "delims": ["`Q", "<`", ";.", "Q)", "X#", ">"], "flags": {}, "data": V.enc({}), "mode": "strict", "async": False},
+     {"kind": "rewrite", "nodes": [["liquid", [["out", "'v'"], ["inline", "note"]]]], "print_seed": 1, "wc": 0.0, "tight": 0.0, "delims": ["[%", "%]", "[[", "]]", "J#", "%J"], "flags": {}, "data": V.enc({}), "mode": "strict", "async": False}],
+    "6bc5308")
+
 if __name__ == "__main__":
     # further entries are appended by tools/mkfindings.py from triaged replay files and kept in findings_extra.json
     extra_path = os.path.join(VERIF, "tools", "findings_extra.json")
